@@ -1,3 +1,188 @@
-(* placeholder until Theory/CircuitThm.v lands: theorems follow *)
-From CC Require Import Model.Circuit Gen.Tables.
-Example C02_model_runs : True. Proof. exact I. Qed.
+(* C02 — "... the complex potentials, voltages and currents of the single-frequency analysis equal the exact phasor solution
+   in which an inductor is jwL, a capacitor 1/(jwC), a source oscillating at w contributes the phasor A*exp(j*phi), and every
+   source at another frequency is replaced by a short circuit (voltage) or open circuit (current).  RMS results are the peak
+   phasors divided by sqrt(2), and the DC analysis equals the real part of the w = 0 solution with capacitors open and
+   inductors shorted."
+   Statements only; proofs are in Theory/CircuitThm.v.  The component laws are [comp_law] (spelled out in
+   Properties/C07.v, C07_comp_law_unfolded). *)
+From Coq Require Import List Bool ZArith NArith String QArith Qcanon.
+From CC Require Import Theory.Field Theory.Complex Theory.Labels Model.Network Theory.Spec Theory.Mna Model.Circuit
+  Model.RunCircuit Theory.CircuitThm Properties.C07.
+Import ListNotations.
+
+(* The phasor equations of a circuit at w, stated on the component list only: reference potential 0; Kirchhoff's current
+   law at every node over the non-ground components (flow [ji id] of component [id] from its first to its second
+   terminal); the law of every non-ground component.  [nd c k] is the k-th listed terminal of c. *)
+Theorem C02_PhasorSpec_unfolded : forall (R : fops) leb rnd ofZ (cs : list (comp R)) (w wres : R) (phi ji : label -> Cx R),
+  let C := Cx R in
+  PhasorSpec R leb rnd ofZ cs w wres phi ji =
+  ((exists g, ground_node R cs = Ok g /\ phi g = f0 C)
+   /\ (forall node,
+        sumF (fun c => fsub C (if label_eqb (nth 0 (cnodes c) []) node then ji (cid c) else f0 C)
+                              (if label_eqb (nth 1 (cnodes c) []) node then ji (cid c) else f0 C))
+             (filter (fun c => has_translator (ck c)) cs) = f0 C)
+   /\ (forall c, In c cs -> ck c <> KGround ->
+         comp_law R leb rnd ofZ c w wres (fsub C (phi (nth 0 (cnodes c) [])) (phi (nth 1 (cnodes c) []))) (ji (cid c)))).
+Proof. reflexivity. Qed.
+
+(* the network produced at w has exactly the phasor equations of the circuit *)
+Theorem C02_phasor : forall (R : fops) (ROK : fops_ok R)
+  (Rreal : forall x y : R, fadd R (fmul R x x) (fmul R y y) = f0 R -> x = f0 R /\ y = f0 R)
+  leb rnd ofZ (cs : list (comp R)) (w wres : R) (n : network (Cx R)) (phi ji : label -> Cx R),
+  transform_circuit R leb rnd ofZ cs w wres = Ok n ->
+  (CircuitSpec n phi (fun b => ji (bid b)) <-> PhasorSpec R leb rnd ofZ cs w wres phi ji).
+Proof. exact phasor_iff. Qed.
+Print Assumptions C02_phasor.
+
+(* whenever ComplexSolution succeeds (no component between a node and itself), the potentials and flows read off its
+   solution vector solve the phasor equations, and every other solution agrees with them on all nodes and components *)
+Theorem C02_solution : forall (R : fops) (ROK : fops_ok R)
+  (Rreal : forall x y : R, fadd R (fmul R x x) (fmul R y y) = f0 R -> x = f0 R /\ y = f0 R)
+  leb rnd ofZ (cs : list (comp R)) (w wres : R) (peak : bool) (s : csol R),
+  complex_solution R leb rnd ofZ cs w wres peak = Ok s ->
+  (forall c, In c cs -> ck c <> KGround -> nth 0 (cnodes c) [] <> nth 1 (cnodes c) []) ->
+  let n := s_net (cs_sol s) in let x := s_x (cs_sol s) in
+  transform_circuit R leb rnd ofZ cs w wres = Ok n
+  /\ wf n /\ WellPosed n
+  /\ PhasorSpec R leb rnd ofZ cs w wres (phi_of n x) (flow_by_id R n x)
+  /\ (forall phi' ji', PhasorSpec R leb rnd ofZ cs w wres phi' ji' ->
+        (forall l, In l (node_labels n) -> phi' l = phi_of n x l)
+        /\ (forall c, In c cs -> ck c <> KGround -> ji' (cid c) = flow_by_id R n x (cid c))).
+Proof. exact phasor_solution. Qed.
+Print Assumptions C02_solution.
+
+(* uniqueness from well-posedness of the network alone *)
+Theorem C02_unique : forall (R : fops) (ROK : fops_ok R)
+  (Rreal : forall x y : R, fadd R (fmul R x x) (fmul R y y) = f0 R -> x = f0 R /\ y = f0 R)
+  leb rnd ofZ (cs : list (comp R)) (w wres : R) (n : network (Cx R)) (phi ji phi' ji' : label -> Cx R),
+  transform_circuit R leb rnd ofZ cs w wres = Ok n -> WellPosed n ->
+  PhasorSpec R leb rnd ofZ cs w wres phi ji -> PhasorSpec R leb rnd ofZ cs w wres phi' ji' ->
+  (forall l, In l (node_labels n) -> phi l = phi' l) /\ (forall c, In c cs -> ck c <> KGround -> ji (cid c) = ji' (cid c)).
+Proof. exact phasor_unique. Qed.
+Print Assumptions C02_unique.
+
+(* what the accessors return: that solution's potentials, voltages (first -> second terminal) and flows — the flow with
+   reversed sign (generator convention) for a lossy source that is active at w; in RMS mode everything through [unpeak] *)
+Theorem C02_reported : forall (R : fops) (ROK : fops_ok R)
+  (Rreal : forall x y : R, fadd R (fmul R x x) (fmul R y y) = f0 R -> x = f0 R /\ y = f0 R)
+  leb rnd ofZ (sqrt2 : R) (cs : list (comp R)) (w wres : R) (peak : bool) (s : csol R),
+  complex_solution R leb rnd ofZ cs w wres peak = Ok s ->
+  (forall c, In c cs -> ck c <> KGround -> nth 0 (cnodes c) [] <> nth 1 (cnodes c) []) ->
+  let n := s_net (cs_sol s) in let x := s_x (cs_sol s) in
+  let phi := phi_of n x in let ji := flow_by_id R n x in
+  (forall l, In l (node_labels n) -> c_potential R sqrt2 s l = Ok (unpeak R sqrt2 s (phi l)))
+  /\ (forall c, In c cs -> ck c <> KGround ->
+        exists b, In b (branches n) /\ translate R leb rnd ofZ c w wres = Ok b
+          /\ c_voltage R sqrt2 s (cid c)
+             = Ok (unpeak R sqrt2 s (fsub (Cx R) (phi (nth 0 (cnodes c) [])) (phi (nth 1 (cnodes c) []))))
+          /\ c_current R sqrt2 s (cid c)
+             = Ok (unpeak R sqrt2 s (if is_linear_source (el b) then fopp (Cx R) (ji (cid c)) else ji (cid c)))).
+Proof. exact phasor_reported. Qed.
+Print Assumptions C02_reported.
+
+Theorem C02_unpeak : forall (R : fops) (sqrt2 : R) (s : csol R) (x : Cx R),
+  (cs_peak s = true -> unpeak R sqrt2 s x = x)
+  /\ (cs_peak s = false -> unpeak R sqrt2 s x = fdiv (Cx R) x (sqrt2, f0 R)).
+Proof. intros. split; [apply unpeak_peak|apply unpeak_rms]. Qed.
+
+(* ---- RMS ---- *)
+(* the RMS run is the peak run with the flag cleared ... *)
+Theorem C02_rms_same_solution : forall (R : fops) leb rnd ofZ (cs : list (comp R)) (w wres : R),
+  complex_solution R leb rnd ofZ cs w wres false
+  = match complex_solution R leb rnd ofZ cs w wres true with
+    | Ok s => Ok {| cs_sol := cs_sol s; cs_peak := false |}
+    | Err e => Err e
+    end.
+Proof. exact complex_solution_rms. Qed.
+
+(* ... and every reported quantity is the peak quantity divided by (sqrt2, 0) (same errors otherwise) *)
+Theorem C02_rms : forall (R : fops) (sqrt2 : R) (sp sr : csol R),
+  cs_sol sr = cs_sol sp -> cs_peak sp = true -> cs_peak sr = false ->
+  let scale := fun r : res (Cx R) => match r with Ok x => Ok (fdiv (Cx R) x (sqrt2, f0 R)) | Err e => Err e end in
+  (forall l, c_potential R sqrt2 sr l = scale (c_potential R sqrt2 sp l))
+  /\ (forall id, c_voltage R sqrt2 sr id = scale (c_voltage R sqrt2 sp id))
+  /\ (forall id, c_current R sqrt2 sr id = scale (c_current R sqrt2 sp id)).
+Proof. intros R sqrt2 sp sr E Hp Hr. split; [|split]; intros x.
+  - exact (rms_potential R sqrt2 sp sr E Hp Hr x).
+  - exact (rms_voltage R sqrt2 sp sr E Hp Hr x).
+  - exact (rms_current R sqrt2 sp sr E Hp Hr x). Qed.
+Print Assumptions C02_rms.
+
+(* the complex power is the same in both modes when sqrt2 * sqrt2 = 2 ... *)
+Theorem C02_rms_power : forall (R : fops) (ROK : fops_ok R)
+  (Rreal : forall x y : R, fadd R (fmul R x x) (fmul R y y) = f0 R -> x = f0 R /\ y = f0 R)
+  (sqrt2 : R) (sp sr : csol R),
+  cs_sol sr = cs_sol sp -> cs_peak sp = true -> cs_peak sr = false ->
+  forall id, fmul R sqrt2 sqrt2 = fadd R (f1 R) (f1 R) -> c_power R sqrt2 sr id = c_power R sqrt2 sp id.
+Proof. exact rms_power. Qed.
+Print Assumptions C02_rms_power.
+
+(* ... and in general (any nonzero approximation of sqrt 2) it is the peak-mode power times 2 / sqrt2^2 *)
+Theorem C02_rms_power_general : forall (R : fops) (ROK : fops_ok R)
+  (Rreal : forall x y : R, fadd R (fmul R x x) (fmul R y y) = f0 R -> x = f0 R /\ y = f0 R)
+  (sqrt2 : R) (sp sr : csol R),
+  cs_sol sr = cs_sol sp -> cs_peak sp = true -> cs_peak sr = false ->
+  forall id, sqrt2 <> f0 R ->
+  c_power R sqrt2 sr id
+  = match c_power R sqrt2 sp id with
+    | Ok p => Ok (fmul (Cx R) (fdiv R (fadd R (f1 R) (f1 R)) (fmul R sqrt2 sqrt2), f0 R) p)
+    | Err e => Err e
+    end.
+Proof. exact rms_power_gen. Qed.
+Print Assumptions C02_rms_power_general.
+
+(* ---- DC ---- *)
+(* DCSolution is the w = 0 complex solution ... *)
+Theorem C02_dc_solution : forall (R : fops) leb rnd ofZ (cs : list (comp R)) (wres : R),
+  dc_solution R leb rnd ofZ cs wres
+  = match complex_solution R leb rnd ofZ cs (f0 R) wres true with Ok s => Ok (cs_sol s) | Err e => Err e end.
+Proof. exact dc_is_w0. Qed.
+
+(* ... of which it reports the real parts ... *)
+Theorem C02_dc : forall (R : fops) (sqrt2 : R) (s : solution (Cx R)),
+  let re := fun r : res (Cx R) => match r with Ok x => Ok (fst x) | Err e => Err e end in
+  let cs := {| cs_sol := s; cs_peak := true |} in
+  (forall l, dc_potential R s l = re (c_potential R sqrt2 cs l))
+  /\ (forall id, dc_voltage R s id = re (c_voltage R sqrt2 cs id))
+  /\ (forall id, dc_current R s id = re (c_current R sqrt2 cs id)).
+Proof. intros R sqrt2 s. split; [|split]; intros x.
+  - exact (dc_potential_re R sqrt2 s x). - exact (dc_voltage_re R sqrt2 s x). - exact (dc_current_re R sqrt2 s x). Qed.
+Print Assumptions C02_dc.
+
+(* ... and at w = 0 a capacitor is an open circuit, an inductor a short circuit *)
+Theorem C02_dc_capacitor_open : forall (R : fops) (ROK : fops_ok R) leb rnd ofZ (c : comp R) (wres : R) (v i : Cx R),
+  ck c = KCapacitor ->
+  (comp_law R leb rnd ofZ c (f0 R) wres v i <-> (exists cv, hasv R c "C" cv) /\ i = f0 (Cx R)).
+Proof. exact dc_capacitor_open. Qed.
+Theorem C02_dc_inductor_short : forall (R : fops) (ROK : fops_ok R) leb rnd ofZ (c : comp R) (wres : R) (v i : Cx R),
+  ck c = KInductance ->
+  (comp_law R leb rnd ofZ c (f0 R) wres v i <-> (exists l, hasv R c "L" l) /\ v = f0 (Cx R)).
+Proof. exact dc_inductor_short. Qed.
+Print Assumptions C02_dc_capacitor_open.
+Print Assumptions C02_dc_inductor_short.
+
+(* ================= non-vacuity (the circuit of Properties/C07.v, w = 2) ================= *)
+Definition q_complex_solution := complex_solution Qcops Qc_leb Qc_round Qc_ofZ.
+Definition ex_sqrt2 : Qc := q 7 5.
+
+Example C02_example_distinct : distinct_terminalsb Qcops ex_cs = true.
+Proof. vm_compute. reflexivity. Qed.
+(* solved in both modes; the voltage across R1 is reported in both, the RMS one being the peak one over (7/5, 0) *)
+Example C02_example_solves :
+  okb (q_complex_solution ex_cs ex_w ex_wres true) (fun sp =>
+  okb (q_complex_solution ex_cs ex_w ex_wres false) (fun sr =>
+  okb (c_voltage Qcops ex_sqrt2 sp (lbl "R1")) (fun vp =>
+  okb (c_voltage Qcops ex_sqrt2 sr (lbl "R1")) (fun vr =>
+    negb (feqb CQ vp (f0 CQ)) && feqb CQ vr (fdiv CQ vp (ex_sqrt2, 0%Qc)))))) = true.
+Proof. vm_compute. reflexivity. Qed.
+Example C02_example_phasor : exists phi ji, PhasorSpec Qcops Qc_leb Qc_round Qc_ofZ ex_cs ex_w ex_wres phi ji.
+Proof. destruct (okb_ex _ _ C02_example_solves) as [s [H _]].
+  destruct (C02_solution Qcops Qcops_ok Qc_real _ _ _ _ _ _ _ s H (distinct_terminalsb_ok _ _ C02_example_distinct))
+    as (_ & _ & _ & P & _). eauto. Qed.
+(* DC analysis of the same circuit: solved; the capacitor carries no current, the inductor no voltage but a current *)
+Example C02_example_dc :
+  okb (dc_solution Qcops Qc_leb Qc_round Qc_ofZ ex_cs ex_wres) (fun s =>
+  okb (dc_current Qcops s (lbl "C1")) (fun i => okb (dc_voltage Qcops s (lbl "L1")) (fun v =>
+  okb (dc_current Qcops s (lbl "L1")) (fun il =>
+    Qc_eq_bool i 0 && Qc_eq_bool v 0 && negb (Qc_eq_bool il 0))))) = true.
+Proof. vm_compute. reflexivity. Qed.
